@@ -292,6 +292,7 @@ def gen_tok(rng, mx):
 
 def gen_history(rng, it, n, malformed=False):
     ops, ms = [], it["methods"]
+    nkeep = 0
     for m in ms:                       # most mocks start configured
         if rng.random() < 0.7:
             ops.append(gen_set(rng, m, ms))
@@ -307,8 +308,20 @@ def gen_history(rng, it, n, malformed=False):
             ops.append(gen_call(rng, m))
         elif r < 0.68:
             ops.append(gen_set(rng, m, ms))
-        elif r < 0.86:
+        elif r < 0.74:
             ops.append({"op": "calls", "m": m["name"]})
+        elif r < 0.80:
+            # keep the result of <M>Calls(), disturb the mock (reset, more calls), look at the kept result again
+            nkeep += 1
+            ops.append({"op": "calls", "m": m["name"], "keep": nkeep})
+            ops.append(rng.choice([{"op": "resetm", "m": m["name"]}, {"op": "resetall"}, {"op": "resetm", "m": m["name"]}]))
+            ops += [gen_call(rng, m) for _ in range(rng.randint(1, 3))]
+            ops.append({"op": "recheck", "keep": nkeep})
+        elif r < 0.86:
+            if nkeep:
+                ops.append({"op": "recheck", "keep": rng.randint(1, nkeep)})
+            else:
+                ops.append({"op": "calls", "m": m["name"]})
         elif r < 0.94:
             ops.append({"op": "resetm", "m": m["name"]})
         else:
@@ -404,16 +417,22 @@ class Expect:
         self.stub, self.resets = pkg["opts"]["stub-impl"], pkg["opts"]["with-resets"]
         self.func = {n: None for n in self.ms}
         self.made = {n: [] for n in self.ms}
+        self.kept = {}
 
     def op(self, op, fuel, seen):
         k, m = op["op"], self.ms.get(op.get("m"))
+        if k == "recheck":
+            return self.kept.get(op["keep"], {"k": "nomethod"})
         if k != "resetall" and m is None:
             return {"k": "nomethod"}
         if k == "set":
             self.func[m["name"]] = op if op["beh"] != "nil" else None
             return {"k": "unit"}
         if k == "calls":
-            return {"k": "records", "tuples": [list(t) for t in self.made[m["name"]]], "method": m}
+            x = {"k": "records", "tuples": [list(t) for t in self.made[m["name"]]], "method": m}
+            if op.get("keep"):
+                self.kept[op["keep"]] = x       # a value: nothing that happens later may change it
+            return x
         if k in ("resetm", "resetall"):
             if not self.resets:
                 return {"k": "nomethod"}
@@ -458,7 +477,10 @@ def same_out(exp, got, where, errs):
     if k == "records":
         tuples = [[f["v"] for f in rec] for rec in got["l"]]
         if tuples != exp["tuples"]:
-            errs.append("%s: Calls() = %r, calls made since the last reset: %r" % (where, tuples, exp["tuples"]))
+            if "recheck" in where:
+                errs.append("%s: the kept <M>Calls() result now reads %r, it was %r when it was returned (a returned result is a value)" % (where, tuples, exp["tuples"]))
+            else:
+                errs.append("%s: Calls() = %r, calls made since the last reset: %r" % (where, tuples, exp["tuples"]))
         m = exp["method"]
         want = [exported(p["name"]) if p["name"] not in (None, "_") and p["name"] == r else None for p, r in zip(m["params"], m["resolved"])]
         for rec in got["l"]:
@@ -542,7 +564,9 @@ def op_term(op):
     if k == "call":
         return "HCall %s %s" % (cstr(op["m"]), cargs_term(op))
     if k == "calls":
-        return "HCalls %s" % cstr(op["m"])
+        return ("HKeep %d %s" % (op["keep"], cstr(op["m"]))) if op.get("keep") else "HCalls %s" % cstr(op["m"])
+    if k == "recheck":
+        return "HRecheck %d" % op["keep"]
     if k == "resetm":
         return "HResetM %s" % cstr(op["m"])
     if k == "resetall":
